@@ -514,7 +514,7 @@ def vacuity_run(mode, prop, tag, force=None):
         if d.get('level') != 'error':
             continue
         msg = d.get('message', '')
-        if d.get('code') is not None or re.search(r'not supported|unsupported|not yet support|does not support|aborting due to', msg, re.I):
+        if d.get('code') is not None or re.search(r'not supported|unsupported|not yet support|does not support', msg, re.I):
             compile_err = msg
         for sp in d.get('spans', []):
             for f in twins:
